@@ -13,6 +13,8 @@ import os
 from dataclasses import dataclass, field
 from typing import Any, Iterator
 
+from .inline import fold_new_helpers, load_known  # noqa: E402
+
 LIB_FILES = ('bubus/service.py', 'bubus/models.py', 'bubus/helpers.py', 'bubus/logging.py', 'bubus/__init__.py')
 
 
@@ -197,6 +199,8 @@ class Program:
         self.units: dict[tuple[str, str], Unit] = {}
         self.classes: dict[str, ClassInfo] = {}
         self.digest = ''
+        self.fold_log: list[str] = []  # new private helpers folded into their callers (sa/inline.py)
+        self._known = load_known()
         self._load()
 
     # ------------------------------------------------------------------ loading
@@ -214,6 +218,7 @@ class Program:
                 tree = ast.parse(src, filename=p)
             except SyntaxError as e:
                 raise AnchorError(f'{rel} does not parse: {e}')
+            self.fold_log.extend(fold_new_helpers(tree, rel, self._known))
             set_parents(tree)
             mi = ModuleInfo(rel, src, tree)
             self.modules[rel] = mi
